@@ -395,6 +395,10 @@ func (c *checkCtx) judge(fam string, cases, results []map[string]J, nontrivialKe
 }
 
 func sampleOf(fam string, cs, r map[string]J) J {
+	if in, ok := r["input"].(string); ok {
+		ev, _ := json.Marshal(cs["events"])
+		return map[string]J{"family": fam, "input": in, "spec_predicts": oneLine(string(ev), 1200), "result": r["status"]}
+	}
 	b, _ := json.Marshal(cs)
 	s := string(b)
 	if len(s) > 1500 {
